@@ -32,6 +32,7 @@ EXPLANATION = (
     "status holds for both swap functions (C09 R-9.1), evaluated here as well."
 )
 NOT_DECIDED = (
+    "(R-11.4 decides one structural necessary condition of the acceptance rule: the pairing of energy differences and betas) "
     "the junction identity as a statement about frame contents, reversibility under deterministic dynamics, "
     "validity of the new paths in their ensembles, the numeric Metropolis threshold min(1, exp(b0*dV0 - b1*dV1))"
 )
@@ -215,6 +216,111 @@ def r112(ctx):
         ctx.bad(rid, q, f"QuanTIS frame roles differ: expected {sorted(wantq)}, found {sorted(gotq)}", construct=f"quantis frame roles {sorted(gotq)}")
 
 
+def r114(ctx):
+    """QuanTIS acceptance: each energy difference is weighted with the beta of the engine of
+    its own level of theory (sibling pairing of the two terms of the exponent)."""
+    rid = "R-11.4"
+    tree = ctx.tree
+    f = tree.func(TIS, "quantis_swap_zero")
+    fl = flow_of(f)
+    cfg = fl.cfg
+
+    def engine_level(e, at, depth=0):
+        """-1 / 0 when e resolves to engines[-1][0] / engines[0][0]."""
+        if depth > 6:
+            return None
+        if isinstance(e, ast.Subscript):
+            t = ast.unparse(e).replace(" ", "")
+            if t == "engines[-1][0]":
+                return -1
+            if t == "engines[0][0]":
+                return 0
+        for kind, node, sat, extra in fl.sources(e, at):
+            if kind == "expr" and node is not e:
+                r = engine_level(node, sat, depth + 1)
+                if r is not None:
+                    return r
+            if kind in ("param", "free"):
+                t = extra.replace(" ", "")
+                if t == "engines[-1][0]":
+                    return -1
+                if t == "engines[0][0]":
+                    return 0
+        return None
+
+    # which engine propagated which path
+    path_level = {}
+    for c in [c for c in walk_local(f) if isinstance(c, ast.Call) and isinstance(c.func, ast.Attribute) and c.func.attr == "propagate" and c.args]:
+        lv = engine_level(c.func.value, cfg.node_of(c))
+        if isinstance(c.args[0], ast.Name) and lv is not None:
+            path_level.setdefault(c.args[0].id, set()).add(lv)
+
+    def energy_levels(e, at, depth=0, seen=None):
+        """levels of theory of the potential energies an expression depends on"""
+        seen = seen if seen is not None else set()
+        out = set()
+        for x in ast.walk(e):
+            if isinstance(x, ast.Attribute) and x.attr == "vpot":
+                base = x.value
+                while isinstance(base, (ast.Subscript, ast.Attribute)):
+                    base = base.value
+                if isinstance(base, ast.Name):
+                    role = _old_role(fl, base, at)
+                    if role == "old0":
+                        out.add(-1)
+                    elif role == "old1":
+                        out.add(0)
+                    elif base.id in path_level:
+                        out |= path_level[base.id]
+                    else:
+                        out.add("?")
+            if isinstance(x, ast.Name) and depth < 6 and (x.id, at.id) not in seen:
+                seen.add((x.id, at.id))
+                for d, sfx in fl.rd(x.id, at):
+                    if d.kind == "assign" and isinstance(d.value, ast.AST) and not isinstance(d.value, ast.Call):
+                        out |= energy_levels(d.value, d.at, depth + 1, seen)
+        return out
+
+    pacc = [d for d in fl.defs if d.path == "pacc" and d.kind == "assign"]
+    if not pacc:
+        raise AnalysisError("R-11.4: acceptance probability `pacc` not found in quantis_swap_zero")
+    n = 0
+    for d in pacc:
+        prods = [x for x in ast.walk(d.value) if isinstance(x, ast.BinOp) and isinstance(x.op, ast.Mult)]
+        for p in prods:
+            sides = [p.left, p.right]
+            beta = None
+            for sd in sides:
+                cand = sd
+                # follow locals to `<engine>.beta`
+                for _ in range(4):
+                    if isinstance(cand, ast.Attribute) and cand.attr == "beta":
+                        break
+                    if isinstance(cand, ast.Name):
+                        defs = [dd for dd, sfx in fl.rd(cand.id, d.at) if dd.kind == "assign" and not sfx and isinstance(dd.value, ast.AST)]
+                        if len(defs) == 1:
+                            cand = defs[0].value
+                            continue
+                    break
+                if isinstance(cand, ast.Attribute) and cand.attr == "beta":
+                    beta = (sd, engine_level(cand.value, d.at))
+            if beta is None:
+                continue
+            other = [sd for sd in sides if sd is not beta[0]][0]
+            lv = energy_levels(other, d.at)
+            n += 1
+            if beta[1] is None or "?" in lv or not lv:
+                raise AnalysisError(f"R-11.4: cannot resolve the level of theory of `{short(p, 50)}`")
+            if lv == {beta[1]}:
+                ctx.ok(rid, p, f"`{short(p, 40)}`: energies of level {sorted(lv)} are weighted with the beta of the engine of the same level")
+            else:
+                ctx.bad(rid, p, f"QuanTIS acceptance: the energy difference of level {sorted(lv)} is multiplied by the beta of the engine of level {beta[1]}: "
+                        "with different temperatures in [0-] and [0+] the swap is not accepted with probability min(1, exp(beta0*dV0 - beta1*dV1))",
+                        construct=short(p, 70))
+    if n < 2:
+        raise AnalysisError(f"R-11.4: only {n} beta-weighted terms found in pacc")
+
+
 def r113(ctx):
     """only-when-idle (C03 R-3.4) and flag<=>status (C09 R-9.1) for the swap functions, under C11 ids."""
     from . import c03, c09
@@ -246,12 +352,14 @@ def r113(ctx):
 
 
 def run(ctx):
+    ctx.rule("R-11.4", "QuanTIS acceptance: each energy difference is weighted with the beta of the engine of its own level", floor=2)
     ctx.rule("R-11.1", "lambda_-1 early rejection precedes any engine call; quantis + lambda_-1 excluded by configuration", floor=3)
     ctx.rule("R-11.2", "the crossing frames are taken from the right ends of the old paths, as copies, on the right side of the propagated segments", floor=5)
     ctx.rule("R-11.3", "zero swap only when the partner is idle; flag <=> status in both swap functions (shared rules)", floor=10)
     ctx.attempt(r111, ctx)
     ctx.attempt(r112, ctx)
     ctx.attempt(r113, ctx)
+    ctx.attempt(r114, ctx)
 
 
 VARIANTS = [
@@ -269,6 +377,10 @@ VARIANTS = [
     B("c11-old-paths-exchanged", TIS, '    path_old0 = picked[-1]["traj"]\n    path_old1 = picked[0]["traj"]\n    maxlen0 = ens_set0["tis_set"]["maxlength"]\n    maxlen1 = ens_set1', '    path_old0 = picked[0]["traj"]\n    path_old1 = picked[-1]["traj"]\n    maxlen0 = ens_set0["tis_set"]["maxlength"]\n    maxlen1 = ens_set1', "R-11.2"),
     B("c11-idle-tests-swapped", REPEX, "            (ens == self._offset and not self._locks[self._offset - 1])\n            or (ens == self._offset - 1 and not self._locks[self._offset])", "            (ens == self._offset and not self._locks[self._offset])\n            or (ens == self._offset - 1 and not self._locks[self._offset - 1])", "R-11.3", control=True),
     B("c11-swap-accept-with-rejected-status", TIS, '            return False, [path_old0, path_old1], "0-L"', '            return True, [path_old0, path_old1], "0-L"', "R-11.3"),
+    B("c11-beta-of-wrong-engine", TIS, "pacc = min(1.0, np.exp(deltaV0 * engine0.beta - deltaV1 * engine1.beta))", "pacc = min(1.0, np.exp(deltaV0 * engine0.beta - deltaV1 * engine0.beta))", "R-11.4", control=True),
+    B("c11-beta-hoisted-copy-paste", TIS, "    pacc = min(1.0, np.exp(deltaV0 * engine0.beta - deltaV1 * engine1.beta))", "    beta0 = engine0.beta\n    beta1 = engine0.beta\n    pacc = min(1.0, np.exp(deltaV0 * beta0 - deltaV1 * beta1))", "R-11.4", why="seeded C11_a"),
+    B("c11-energy-levels-crossed", TIS, "    deltaV1 = V1_r0 - V1_r1", "    deltaV1 = V0_r0 - V1_r1", "R-11.4"),
+    K("c11-keep-beta-hoisted", TIS, "    pacc = min(1.0, np.exp(deltaV0 * engine0.beta - deltaV1 * engine1.beta))", "    beta0 = engine0.beta\n    beta1 = engine1.beta\n    pacc = min(1.0, np.exp(beta0 * deltaV0 - beta1 * deltaV1))"),
     K("c11-keep-alias-old-path", TIS, "    shpt_copy = path_old1.phasepoints[0].copy()\n    # shpt_copy2", "    first_plus = path_old1\n    shpt_copy = first_plus.phasepoints[0].copy()\n    # shpt_copy2"),
     K("c11-keep-reverse-positional", TIS, "        engine1.propagate(path_tmp, ens_set1, system, reverse=False)", "        engine1.propagate(path_tmp, ens_set1, system)"),
 ]
